@@ -64,8 +64,8 @@ fn stacks_kept(bytes: &[u8]) -> usize {
 fn reused_writer_with_another_blamed_thread() {
     let mut child = start_child_and_wait_for_threads(4);
     let pid = child.id() as i32;
-    let other = *tids_of(pid).last().unwrap();
-    assert_ne!(other, pid);
+    // any thread but the main one (thread ids wrap around, so the numerically largest one may BE the main thread)
+    let other = *tids_of(pid).iter().find(|t| **t != pid).expect("setup: a secondary thread");
     let mut w = MinidumpWriter::new(pid, pid);
     let _first = w.dump(&mut std::io::Cursor::new(Vec::new())).expect("dump 1");
     w.blamed_thread = other;
@@ -85,7 +85,7 @@ fn reused_writer_with_unresolvable_principal_address() {
     let pid = child.id() as i32;
     // an address inside the child's executable
     let maps = std::fs::read_to_string(format!("/proc/{pid}/maps")).unwrap();
-    let exe_line = maps.lines().find(|l| l.contains("r-xp") && l.contains('/')).expect("an executable file mapping");
+    let exe_line = maps.lines().find(|l| l.contains("r-xp") && l.contains('/')).expect("setup: an executable file mapping");
     let start = usize::from_str_radix(exe_line.split('-').next().unwrap(), 16).unwrap();
     let mut w = MinidumpWriter::new(pid, pid);
     w.skip_stacks_if_mapping_unreferenced();
